@@ -84,8 +84,14 @@ func newTwins(kind, vol string, cfg sideCfg) (l, w *side, err error) {
 
 		w.root = vol + `\`
 
-		if err := w.v.MkdirAll(w.root+"tmp", 0o777); err != nil {
-			return nil, nil, fmt.Errorf("MkdirAll on %s: %v", vol, err)
+		// the harness's own temporary directory; in the default configuration
+		// ("@D+sys") the system area and the default locations stay where the
+		// constructor made them (w.sysRoot, C:): only the user's tree and the
+		// current directory live on the added volume
+		if !cfg.sysDirs {
+			if err := w.v.MkdirAll(w.root+"tmp", 0o777); err != nil {
+				return nil, nil, fmt.Errorf("MkdirAll on %s: %v", vol, err)
+			}
 		}
 
 		if _, r := w.do(fsx.Call{Op: "Chdir", A: "/"}); r.Kind != "ok" {
@@ -598,6 +604,54 @@ func buildOps(kind, tier string, cfg sideCfg) []fsx.Call {
 		}
 	}
 
+	// Letter case. General lesson: code that asks "are these two the same
+	// entry?" (the shortcut of Rename/Link for identical operands, the look-up
+	// of a name in a directory, the comparison of a path with a prefix) can do
+	// so with a lexical helper, and the lexical helpers of one OS type fold
+	// case while the emulated tree does not (it is case sensitive on both
+	// types: that is what the Linux-typed twin demands). An alphabet written in
+	// one case never tells the two apart. So: names that differ from a name of
+	// the alphabet only by the case of ONE element (the last one, a directory
+	// on the way), as entries of their own (the creating, removing and reading
+	// one-path calls; thorough: all of them) and as the two operands of Rename
+	// and Link, in both directions. "a" next to "A" exists in reached states
+	// (Mkdir /A after the start state "+tree", Rename /a -> /A ...).
+	caseBase := []string{"/a", "/a/a", "a"}
+	if tier == "thorough" {
+		caseBase = all
+	}
+
+	var casePairs [][2]string
+
+	caseSeen := map[string]bool{}
+
+	for _, p := range caseBase {
+		for _, q := range caseVariants(p) {
+			casePairs = append(casePairs, [2]string{p, q})
+
+			if caseSeen[q] {
+				continue
+			}
+
+			caseSeen[q] = true
+
+			if tier == "thorough" {
+				single(q, true)
+
+				continue
+			}
+
+			ops = append(ops,
+				fsx.Call{Op: "Mkdir", A: q, Perm: 0o755},
+				fsx.Call{Op: "WriteFile", A: q, Data: "x", Perm: 0o644},
+				fsx.Call{Op: "Remove", A: q},
+				fsx.Call{Op: "Stat", A: q},
+				fsx.Call{Op: "ReadDir", A: q},
+				fsx.Call{Op: "Chdir", A: q},
+			)
+		}
+	}
+
 	if cfg.sysDirs {
 		// RemoveAll of the root removes the default locations, which are nested
 		// on one type only: what a later MkdirAll of one of them brings back differs
@@ -616,6 +670,14 @@ func buildOps(kind, tier string, cfg sideCfg) []fsx.Call {
 		for _, q := range all {
 			ops = append(ops, fsx.Call{Op: "Rename", A: p, B: q}, fsx.Call{Op: "Link", A: p, B: q})
 		}
+	}
+
+	// the same name in two cases as the two operands (see "Letter case" above)
+	for _, pq := range casePairs {
+		ops = append(ops,
+			fsx.Call{Op: "Rename", A: pq[0], B: pq[1]}, fsx.Call{Op: "Rename", A: pq[1], B: pq[0]},
+			fsx.Call{Op: "Link", A: pq[0], B: pq[1]}, fsx.Call{Op: "Link", A: pq[1], B: pq[0]},
+		)
 	}
 
 	// two-path calls: every pair with at least one operand that has another
@@ -797,12 +859,33 @@ func buildOps(kind, tier string, cfg sideCfg) []fsx.Call {
 	return kept
 }
 
+// caseVariants returns the portable paths that differ from p by the letter
+// case of exactly one element ("/a/b": "/A/b", "/a/B"); none for "/", "..".
+func caseVariants(p string) []string {
+	var out []string
+
+	elems := strings.Split(p, "/")
+
+	for i, e := range elems {
+		u := strings.ToUpper(e)
+		if u == e {
+			continue
+		}
+
+		v := append(append(append([]string{}, elems[:i]...), u), elems[i+1:]...)
+		out = append(out, strings.Join(v, "/"))
+	}
+
+	return out
+}
+
 func pairFactory(tier string) func(string) bfs.System {
 	return func(name string) bfs.System {
 		setSeq()
 
 		// name = kind[@D][+tree][+sys]: "@D" puts the Windows-typed side on an added
-		// volume D:, "+tree" starts from a non-initial state (/a/{a}, /b second
+		// volume D: (with "+sys": the user's tree and the current directory only,
+		// the system area stays on C:), "+tree" starts from a non-initial state (/a/{a}, /b second
 		// name of /a/a), "+sys" is the default configuration of the emulated OS
 		// (system directories of the constructor, MemFS: identity manager of the
 		// same OS type)
